@@ -61,6 +61,9 @@ type simInline struct {
 }
 
 type simHistOpts struct {
+	Dedup        bool // track the deduplication oracle (expected source of every answer, identical acknowledgements)
+	Universe     int  // >0: entries are drawn from a small universe with near-collisions instead of fresh ids
+	CacheActions bool // between rounds: delete / roll back / legacy-table / recompute-tool actions on the cache
 	Inline      bool // generate submissions that run concurrently with sequencing (at yield points)
 	KillAfter   bool // sometimes kill the process right after a round (with cache rollback variants)
 	MaxRounds   int
@@ -75,6 +78,7 @@ type simHistStats struct {
 	Rounds, Commits, Restarts, Crashes, FaultsFired, ClockAnoms, TileCross, MultiTile, EmptyRounds int
 	FatalRounds, FailedPools, LoadFailures, Acks                                                 int
 	InlineRun, InlineDupInSeq, InlineDupAcked, InlineCacheHits, KillsAfterAck, CacheRollbacks, EarlyRelease int
+	LegacyTables, ToolRuns                                                                                 int
 	Sizes                                                                                        []int64
 	Desc                                                                                         []string
 }
@@ -133,7 +137,88 @@ type simHist struct {
 	afterRound func(res *simRoundResult) error
 	afterLoad  func() error
 	snaps      []simCacheSnap
+	snapMust   []map[string]simAck
 	inlineSubs []*simEntry
+
+	// deduplication oracle state (opts.Dedup)
+	pending  map[string]bool   // keys admitted to the pool that is accumulating in the running incarnation
+	inSeq    map[string]bool   // keys of the pool being sequenced right now
+	must     map[string]simAck // keys that the cache must answer, with the answer they must get
+	dedupErr error
+	toolRuns int
+}
+
+func (h *simHist) resetVolatile() {
+	h.pending, h.inSeq = map[string]bool{}, map[string]bool{}
+}
+
+func copyMust(m map[string]simAck) map[string]simAck {
+	c := make(map[string]simAck, len(m))
+	for k, v := range m {
+		c[k] = v
+	}
+	return c
+}
+
+// submit is s.submit plus the deduplication oracle: the source of the answer
+// must be the one the harness' own bookkeeping predicts.
+func (h *simHist) submit(ctx context.Context, e *simEntry) *simWaiter {
+	s := h.s
+	if !h.opts.Dedup {
+		return s.submit(ctx, h.in, e, false)
+	}
+	if h.pending == nil {
+		h.resetVolatile()
+		h.must = map[string]simAck{}
+	}
+	key := e.dedupKey()
+	wasPending, wasInSeq := h.pending[key], h.inSeq[key]
+	mustAck, isMust := h.must[key]
+	wt := s.submit(ctx, h.in, e, false)
+	fail := func(format string, a ...any) {
+		if h.dedupErr == nil {
+			h.dedupErr = fmt.Errorf(format, a...)
+		}
+	}
+	switch wt.Src {
+	case "sequencer":
+		switch {
+		case wasPending:
+			fail("entry %s is already pending in the current pool but was admitted again as a new leaf", key[:14])
+		case wasInSeq:
+			fail("entry %s is being sequenced right now but was admitted again as a new leaf", key[:14])
+		case isMust:
+			fail("entry %s was acknowledged before (index %d) and the cache was not lost, but it was admitted again as a new leaf", key[:14], mustAck.Index)
+		}
+		h.pending[key] = true
+	case "pool":
+		if !wasPending && !wasInSeq {
+			fail("entry %s was answered from a pool although it is neither pending nor being sequenced", key[:14])
+		}
+	case "cache":
+		if wasPending || wasInSeq {
+			fail("entry %s is pending/in sequencing but was answered from the cache", key[:14])
+		}
+	}
+	return wt
+}
+
+// dedupOnAck checks that all acknowledgements of one entry are identical
+// while the cache is intact, and records what the cache must answer from now on.
+func (h *simHist) dedupOnAck(a simAck) {
+	if !h.opts.Dedup || a.Entry == nil {
+		return
+	}
+	key := a.Entry.dedupKey()
+	if prev, ok := h.must[key]; ok {
+		if prev.Index != a.Index || prev.Time != a.Time {
+			if h.dedupErr == nil {
+				h.dedupErr = fmt.Errorf("entry %s was acknowledged as (index %d, t=%d) and later, with the cache intact, as (index %d, t=%d, via %s)", key[:14], prev.Index, prev.Time, a.Index, a.Time, a.Src)
+			}
+		}
+		return
+	}
+	h.must[key] = a
 }
 
 // installYield arms the yield hook for the coming round: it detects an early
@@ -189,7 +274,7 @@ func (h *simHist) installYield(inl []simInline) {
 				e = h.inlineSubs[a.Arg%len(h.inlineSubs)]
 			}
 			h.inlineSubs = append(h.inlineSubs, e)
-			wt := s.submit(simInlineCtx(context.Background()), in, e, false)
+			wt := h.submit(simInlineCtx(context.Background()), e)
 			h.st.InlineRun++
 			if wt.Src == "cache" {
 				h.st.InlineCacheHits++
@@ -220,6 +305,7 @@ func (h *simHist) genEntries(t *rapid.T, n int) []*simEntry {
 func (h *simHist) reload(t *rapid.T, withFaults bool) error {
 	h.in.close()
 	h.in = nil
+	h.resetVolatile()
 	for attempt := 0; attempt < 6; attempt++ {
 		var faults []simFault
 		if withFaults && attempt < 3 {
@@ -279,7 +365,17 @@ func (h *simHist) run(t *rapid.T) error {
 	for r := 0; r < rounds; r++ {
 		cur := int64(len(s.model))
 		n := simPoolSize(t, cur)
-		entries := h.genEntries(t, n)
+		var entries []*simEntry
+		if h.opts.Universe > 0 {
+			for k := rapid.IntRange(0, 12).Draw(t, "nsub"); k > 0; k-- {
+				entries = append(entries, simUniverseEntry(rapid.IntRange(0, h.opts.Universe-1).Draw(t, "uid")))
+			}
+			if rapid.IntRange(0, 4).Draw(t, "filler") == 0 {
+				entries = append(entries, h.genEntries(t, n)...) // also move the tree across tile boundaries
+			}
+		} else {
+			entries = h.genEntries(t, n)
+		}
 		// some duplicates of what was submitted before (same or earlier rounds)
 		if h.nextID > 0 && rapid.IntRange(0, 3).Draw(t, "dups") == 0 {
 			for k := rapid.IntRange(1, 3).Draw(t, "ndups"); k > 0; k-- {
@@ -294,7 +390,7 @@ func (h *simHist) run(t *rapid.T) error {
 		}
 		h.in.p.begin("submit", subFaults)
 		for _, e := range entries {
-			s.submit(context.Background(), h.in, e, false)
+			h.submit(context.Background(), e)
 		}
 		h.st.FaultsFired += len(h.in.p.firedFaults())
 		if h.in.p.dead {
@@ -329,8 +425,22 @@ func (h *simHist) run(t *rapid.T) error {
 			h.snaps = append(h.snaps, preSnap)
 		}
 		h.installYield(inl)
+		if h.opts.Dedup {
+			if h.pending == nil {
+				h.resetVolatile()
+				h.must = map[string]simAck{}
+			}
+			h.inSeq, h.pending = h.pending, map[string]bool{}
+			h.snapMust = append(h.snapMust, copyMust(h.must))
+		}
 		res := s.round(h.in, faults)
 		s.w.yield = nil
+		if h.opts.Dedup {
+			h.inSeq = map[string]bool{}
+			if h.dedupErr != nil {
+				return h.dedupErr
+			}
+		}
 		h.st.Rounds++
 		h.st.FaultsFired += len(res.Fired)
 		h.st.Acks += len(res.Acks)
@@ -379,16 +489,29 @@ func (h *simHist) run(t *rapid.T) error {
 					h.st.CacheRollbacks++
 					h.in.close()
 					s.w.cacheRestore(preSnap)
+					if h.opts.Dedup {
+						h.must = copyMust(h.snapMust[len(h.snapMust)-1])
+					}
 					h.st.descf("killed after ack, cache rolled back to before the round")
 				case 2: // ... and the cache is rolled back to an older snapshot
 					restart = true
 					h.st.KillsAfterAck++
 					h.st.CacheRollbacks++
 					h.in.close()
-					s.w.cacheRestore(h.snaps[rapid.IntRange(0, len(h.snaps)-1).Draw(t, "snapIdx")])
-					h.st.descf("killed after ack, cache rolled back to an older snapshot")
+					si := rapid.IntRange(0, len(h.snaps)-1).Draw(t, "snapIdx")
+					s.w.cacheRestore(h.snaps[si])
+					if h.opts.Dedup {
+						h.must = copyMust(h.snapMust[si])
+					}
+					h.st.descf("killed after ack, cache rolled back to snapshot %d", si)
 				}
 			}
+		}
+		if h.opts.CacheActions && !restart && rapid.IntRange(0, 3).Draw(t, "cacheAction") == 0 {
+			if err := h.cacheAction(t); err != nil {
+				return err
+			}
+			restart = true
 		}
 		if restart {
 			if err := h.reload(t, h.opts.Faults); err != nil {
